@@ -74,6 +74,9 @@ func c11Check(c c11Case) string {
 		// than that means a goroutine went on reading the caller's input after the call had returned
 		return fmt.Sprintf("%sthe call returned (%s) but %d more bytes were read from the caller's reader afterwards", head, errOrNil(res), res.LateReadBytes)
 	}
+	if res.CloseDuringRead {
+		return head + "the caller's reader (an io.Closer) had Close called on it while one of its Reads was still pending in another goroutine: unsynchronised concurrent use of the caller's reader"
+	}
 	if res.Leaked != "" {
 		return fmt.Sprintf("%sthe call returned (%s) but goroutines it started are still there after the settling period:\n%s", head, errOrNil(res), truncate(res.Leaked, 3000))
 	}
@@ -246,7 +249,10 @@ func c11Gen(race bool) *rapid.Generator[c11Case] {
 			c.Faults.ErrKind = rapid.IntRange(0, 5).Draw(t, "errKind")
 		case 2:
 			c.Faults.CallbackFailAt = rapid.IntRange(0, 3*nroots).Draw(t, "cbAt")
+			c.Faults.CbErrKind = rapid.IntRange(0, 7).Draw(t, "cbErr")
 		}
+		// the reader / writer as the library sees them: plain; io.WriterTo + io.StringWriter; a reader that is also an io.Closer
+		c.Faults.IOKind = rapid.SampledFrom([]int{0, 0, 1, 2}).Draw(t, "ioKind")
 		switch rapid.IntRange(0, 9).Draw(t, "cancel") {
 		case 8:
 			c.Cancel = ops.Cancel{Kind: "customctx"}
